@@ -14,7 +14,6 @@ import (
 
 	"github.com/andydunstall/yamux"
 	"github.com/gin-gonic/gin"
-	"github.com/gorilla/websocket"
 
 	"github.com/andydunstall/piko/pkg/auth"
 	"github.com/andydunstall/piko/pkg/log"
@@ -34,14 +33,9 @@ import (
 // that reaches another piko node delivers the outbound request to that node's
 // proxy port with the same method, path, query, Host and end-to-end headers.
 //
-//gosym:stub (*net/http/httputil.ReverseProxy).ServeHTTP = vStubReverseProxy
-//gosym:stub (*github.com/gorilla/websocket.Upgrader).Upgrade = vStubUpgrade
-
-var vErrUpgrade = errors.New("not a websocket handshake")
-
-func vStubUpgrade(u *websocket.Upgrader, w http.ResponseWriter, r *http.Request, h http.Header) (*websocket.Conn, error) {
-	return nil, vErrUpgrade
-}
+//gosym:stub (*net/http/httputil.ReverseProxy).ServeHTTP = vStubReverseProxy if proxy-world
+// (the websocket Upgrade stub lives in the server/upstream harness: it fails
+// unless a harness asks for success, so the TCP route ends after the dial)
 
 type vNodeW struct {
 	id   string
@@ -69,6 +63,7 @@ var (
 )
 
 func vResetWorld() {
+	v.Tag("proxy-world")
 	vNodes = nil
 	vSessOwner = map[*yamux.Session]string{}
 	vHops, vHandlerRuns, vCaptured, vToken, vRoundTrip, vStatuses = 0, 0, nil, nil, 0, nil
